@@ -43,7 +43,8 @@ class Contract:
         self.max_paths = kw.pop("max_paths", 4000)
         self.invariants = list(kw.pop("invariants", []))  # names of class invariants to assume on entry / prove on exit
         self.params: Optional[List[str]] = kw.pop("params", None)
-        self.reveal = set(kw.pop("reveal", []))  # opaque spec functions whose definition this proof may use
+        self.reveal = set(kw.pop("reveal", []))
+        self.allocates: bool = kw.pop("allocates", False)  # may the function allocate objects that outlive the call?  # opaque spec functions whose definition this proof may use
         if kw:
             raise TypeError(f"unknown contract fields {list(kw)} for {key}")
 
